@@ -5,8 +5,10 @@ package main
 // attempts) and renders what happened as the observation EngineHarness.v expects.
 
 import (
+	"bytes"
 	"fmt"
 	"strings"
+	"time"
 
 	"github.com/opsidian/parsley/ast"
 	"github.com/opsidian/parsley/ast/interpreter"
@@ -125,6 +127,8 @@ func (b *engBuilder) build(t *Term) parsley.Parser {
 		switch lit.Head {
 		case "TRune":
 			return &failProbe{terminal.Rune(rune(lit.Args[0].Int())), b.st}
+		case "TLit":
+			return &failProbe{buildLiteral(lit.Args[0]), b.st}
 		}
 		panic("bad terminal " + lit.Head)
 	case "PEmpty":
@@ -206,8 +210,53 @@ func (b *engBuilder) build(t *Term) parsley.Parser {
 	panic("bad pexpr " + t.Head)
 }
 
-func renderValue(v interface{}) string {
+// the real terminal parsers of text/terminal for a Literals.literal term
+func buildLiteral(l *Term) parsley.Parser {
+	switch l.Head {
+	case "LInteger":
+		return terminal.Integer(nil)
+	case "LFloat":
+		return terminal.Float(nil)
+	case "LString":
+		return terminal.String(nil, l.Args[0].Bool())
+	case "LChar":
+		return terminal.Char(nil)
+	case "LBool":
+		return terminal.Bool(nil, string(l.Args[0].Bytes()), string(l.Args[1].Bytes()))
+	case "LNil":
+		return terminal.Nil(nil, string(l.Args[0].Bytes()))
+	case "LWord":
+		w := string(l.Args[0].Bytes())
+		return terminal.Word(nil, w, w)
+	case "LOp":
+		return terminal.Op(string(l.Args[0].Bytes()))
+	case "LRune":
+		return terminal.Rune(rune(l.Args[0].Int()))
+	case "LDuration":
+		return terminal.TimeDuration(nil)
+	}
+	panic("bad literal " + l.Head)
+}
+
+// the file of the case being run (normalised bytes, base offset): a float64 / time.Duration value is
+// rendered by its lexeme, the bytes pos..readerPos of the file
+var engData []byte
+var engOffset int
+
+func lexeme(pos, readerPos parsley.Pos) string {
+	lo, hi := int(pos)-engOffset, int(readerPos)-engOffset
+	if lo < 0 || hi > len(engData) || lo > hi {
+		return OT("bad-span")
+	}
+	return OT("lex", OStr(string(engData[lo:hi])))
+}
+
+func renderValue(v interface{}, pos, readerPos parsley.Pos) string {
 	switch x := v.(type) {
+	case float64:
+		return lexeme(pos, readerPos)
+	case time.Duration:
+		return lexeme(pos, readerPos)
 	case rune:
 		return OT("r", ON(int(x)))
 	case int64:
@@ -263,7 +312,7 @@ func renderNode(n parsley.Node) string {
 		if r, ok := v.Value().(rune); ok && v.Token() == string(r) && r < 128 {
 			return OT("r", ONs(int(r), int(v.Pos()), int(v.ReaderPos())))
 		}
-		return OT("T", OStr(v.Token()), renderValue(v.Value()), ONs(int(v.Pos()), int(v.ReaderPos())))
+		return OT("T", OStr(v.Token()), renderValue(v.Value(), v.Pos(), v.ReaderPos()), ONs(int(v.Pos()), int(v.ReaderPos())))
 	}
 	return OT("unknown-node", OStr(fmt.Sprintf("%T", n)))
 }
@@ -394,6 +443,8 @@ func newEngEnv(t *Term) *engEnv {
 		}
 		fs = parsley.NewFileSet(text.NewFile("x", filler), f)
 	}
+	engData = bytes.Replace(raw, []byte("\r\n"), []byte("\n"), -1) // what NewFile keeps
+	engOffset = int(f.Pos(0))
 	return &engEnv{file: f, fs: fs, rules: t.Args[0].List(), root: t.Args[1]}
 }
 
